@@ -1087,6 +1087,81 @@ class Ex:
         self.yields.val = VSeq("list", ety, z3.Concat(self.yields.val.t, z3.Unit(unwrap(ety, v))))
         return NONE
 
+    def e_ListComp(self, e):
+        """[ELT for x in SEQ]  ->  a recursive function of SEQ (uninterpreted symbol + defining
+        equation instantiated per application, like recursive spec functions):
+            comp(s) = [] if len(s) == 0 else [ELT(s[0])] + comp(s[1:])
+        ELT is the real element expression (callees inlined, branches merged).  Values captured from
+        the enclosing scope must be concrete (classes, patterns, constants)."""
+        if len(e.generators) != 1 or e.generators[0].ifs or e.generators[0].is_async or \
+                not isinstance(e.generators[0].target, ast.Name):
+            raise Unsupported("list comprehension shape at line %d" % e.lineno)
+        gen = e.generators[0]
+        seq = self.eval(gen.iter)
+        if isinstance(seq, VBox) and seq.kind == "list":
+            seq = seq.val
+        if not isinstance(seq, VSeq):
+            raise Unsupported("list comprehension over %r" % (seq,))
+        fr = self.frame()
+        key = ("comp", id(e))
+        vf = self.world.comp_funcs.get(key)
+        if vf is None:
+            var = gen.target.id
+            for n in ast.walk(e.elt):
+                if isinstance(n, ast.Name) and n.id != var:
+                    v = fr.lookup(n.id)
+                    if v is not None and not isinstance(v, (VPy, VClass, VFunc)) and not \
+                            (isinstance(v, VSeq) and v.pyval is not None) and not \
+                            (isinstance(v, (VInt, VBool)) and z3.is_int_value(z3.simplify(unwrap("int", v)))):
+                        raise Unsupported("list comprehension captures the symbolic local %r" % n.id)
+            lam = ast.Lambda(args=ast.arguments(posonlyargs=[], args=[ast.arg(arg=var)], kwonlyargs=[], kw_defaults=[],
+                                                defaults=[]), body=e.elt)
+            ast.fix_missing_locations(lam)
+            elt_fn = VFunc("user", "<comprehension element>", node=lam, closure=fr, cls=fr.func.cls, module=fr.func.module)
+            # element type: evaluate once on a fresh element
+            probe = self.world.speclib.seq_index(self, VSeq(seq.kind, seq.ety, z3.Const(fresh_name("comp_probe"),
+                                                 sort_of(seq.kind if seq.kind != "list" else ("list", seq.ety)))),
+                                                 VInt(0), checked=False)
+            self.spec_mode += 1
+            try:
+                ety = type_of(self.call_pure_lambda(elt_fn, [probe]))
+            finally:
+                self.spec_mode -= 1
+            ords = self.world.loop_ordinals(fr.func)  # noqa (keeps ordinals computed)
+            comps = [n for n in _walk_shallow(fr.func.node) if isinstance(n, ast.ListComp)]
+            comps.sort(key=lambda n: (n.lineno, n.col_offset))
+            k = comps.index(e) if e in comps else len(self.world.comp_funcs)
+            fname = "comp_%s_%d" % (fr.func.name.replace(".", "_"), k)
+            src = ("def %s(s):\n    if len(s) == 0:\n        return __empty\n"
+                   "    return [__elt(s[0])] + %s(s[1:])\n" % (fname, fname))
+            node = ast.parse(src).body[0]
+            cfr = Frame(VFunc("user", "<comprehension>", cls=fr.func.cls, module=fr.func.module), None)
+            vf = VFunc("user", "spec:" + fname, node=node, closure=cfr, module=None)
+            kind = seq.kind if seq.kind != "list" else "list:%s" % seq.ety
+            vf.rec = dict(args=[kind if seq.kind != "list" else kind], ret=("list", ety))
+            cfr.vars["__elt"] = elt_fn
+            cfr.vars["__empty"] = VSeq("list", ety, z3.Empty(sort_of(("list", ety))))
+            cfr.vars[fname] = vf
+            self.world.comp_funcs[key] = vf
+            self.world.comp_by_func.setdefault(fr.func.name, {})[k] = vf
+            self.world.speclib.use("list comprehension [%s for %s in ...] as a recursive function of the sequence"
+                                   % (ast.unparse(e.elt), var))
+        r = self.world.speclib.seqval(self.pure_call(vf, [seq], {}))
+        # a comprehension yields exactly one element per element of the sequence
+        self.define(z3.Length(r.t) == seq.length(), key=("comp-len", r.t.get_id()))
+        self._keep.append(r.t)
+        return VBox("list", r)
+
+    def call_pure_lambda(self, f, args):
+        vals = self.bind_args(f, args, {})
+        fr = Frame(f, f.closure)
+        fr.vars.update(vals)
+        self.frames.append(fr)
+        try:
+            return self.eval(f.node.body)
+        finally:
+            self.frames.pop()
+
     def e_IfExp(self, e):
         c = self.truth(self.eval(e.test))
         if self.spec_mode:
@@ -1109,9 +1184,27 @@ class Ex:
         if self.spec_mode:
             # pure reading: boolean result, later operands evaluated under the guard of the earlier
             acc = None
-            for x in e.values:
+            for xi, x in enumerate(e.values):
                 if acc is None:
-                    acc = self.truth(self.eval(x))
+                    first = self.eval(x)
+                    if not isinstance(first, VBool):
+                        # value semantics (`e or "0"`): the deciding operand, merged without forking
+                        val = first
+                        for y in e.values[1:]:
+                            tv = self.truth(val)
+                            one = self.decided(tv)
+                            if isinstance(e.op, ast.Or):
+                                if one is True:
+                                    return val
+                                nxt = self.eval_guarded(y, z3.Not(tv))
+                                val = nxt if one is False else self.ite(tv, val, nxt)
+                            else:
+                                if one is False:
+                                    return val
+                                nxt = self.eval_guarded(y, tv)
+                                val = nxt if one is True else self.ite(tv, nxt, val)
+                        return val
+                    acc = self.truth(first)
                     continue
                 one = self.decided(acc)
                 if isinstance(e.op, ast.And):
@@ -1440,6 +1533,10 @@ class Ex:
             c = w.contract_for_func(f)
             if c is not None and c.modular and not self.spec_mode:
                 return w.modular_call(self, c, f, args, kwargs, node)
+            if self.spec_mode and not isinstance(f.node, ast.Lambda) and not _is_generator(f.node):
+                # real code called from specification context (e.g. the element expression of a
+                # comprehension): evaluate with merged branches, no path forks
+                return self.pure_call(f, args, kwargs, norec=True)
             return self.inline(f, args, kwargs, node)
         if isinstance(f, VClass):
             return self.instantiate(f, args, kwargs, node)
